@@ -171,3 +171,34 @@ Theorem c07_deliver_leaves_others : forall c s u s' os k t, reach c s -> step s 
     (assoc (t_id t) (used s) = Some k -> assoc (t_id t) (used s') = Some k).
 Proof. exact SrvC07b.c07_deliver_leaves_others. Qed.
 Print Assumptions c07_deliver_leaves_others.
+
+(** * Monitor over the observation sequence of a run (srv/SrvMonitors2.v, proof: srv/SrvMonDup.v), extracted and
+    evaluated by the model runner on every harness log, racing ones included.  [env_of tr] = the environment labels of
+    the trace in order, [concat oss] = the observations of the run in order; [dup_ids os] = the ids of the replies in
+    os whose body is the error (-32600, "duplicate request ID"); [fed_ids env] = the ids (after fixID) of the members
+    fed; [label_excuse l] = the environment itself produced that error value (a handler outcome LGate _ (OErr ..) or
+    the recorded parse error of a fed member);
+    [mon_duplicate env os] = some label of env is an excuse, or every id of dup_ids os is null or occurs at least
+    twice in fed_ids env. *)
+From JV Require SrvMonitors SrvMonitors2 SrvMonDup.
+Module Monitors.
+Import SrvMonitors SrvMonitors2.
+Theorem c07_mon_duplicate_sound : forall c tr s oss, run (init_of c) tr = Some (s, oss) ->
+  mon_duplicate (env_of tr) (concat oss) = true.
+Proof. exact SrvMonDup.mon_duplicate_sound. Qed.
+Print Assumptions c07_mon_duplicate_sound.
+
+(* a reply with the duplicate-id error and an id other than null is sent only if two members with that id were fed *)
+Theorem c07_dup_reply_fed_twice : forall c tr s oss i, run (init_of c) tr = Some (s, oss) ->
+  existsb label_excuse (env_of tr) = false -> In i (dup_ids (concat oss)) ->
+  i = null_bytes \/ 2 <= count_bytes i (fed_ids (env_of tr)).
+Proof. exact SrvMonDup.dup_reply_fed_twice. Qed.
+Print Assumptions c07_dup_reply_fed_twice.
+
+(* the hypothesis is needed: a handler that returns that very error value has it sent for an id received once *)
+Theorem c07_dup_reply_fed_twice_unconditional_refuted :
+  exists tr s oss i, run (init_of ex_cfg) tr = Some (s, oss) /\ In i (dup_ids (concat oss)) /\ i <> null_bytes /\
+    count_bytes i (fed_ids (env_of tr)) = 1 /\ existsb label_excuse (env_of tr) = true.
+Proof. exact SrvMonDup.dup_reply_fed_twice_unconditional_refuted. Qed.
+Print Assumptions c07_dup_reply_fed_twice_unconditional_refuted.
+End Monitors.
